@@ -29,6 +29,7 @@ type inbound struct {
 	RefTag     string // (Logon) offending field expected in the Reject ("" = none)
 	SeqKnown   bool   // MsgSeqNum present and numeric
 	Seq        func(w *world) int
+	OtherIDs   bool // (Logon) sent by another counterparty pair (OTHER -> DESK) than the world's default
 }
 
 type protoEvent struct {
@@ -39,6 +40,7 @@ type protoEvent struct {
 
 type protoMon struct {
 	endedBySilence bool
+	ids            [2]string // accepting side: SenderCompID / TargetCompID every outbound message carries since the last accepted Logon
 	prop       string
 	role       string
 	state      byte // 'W' waiting for a Logon, 'L' logged on, 'O' logout sent by us, awaiting answer
@@ -109,6 +111,23 @@ func (m *protoMon) step(w *world, ev event, outs []outMsg) (string, string) {
 		m.everLogged = true
 	case in != nil && in.Type == "5" && in.Valid && (before == 'L' || before == 'O'):
 		m.state = 'W'
+	}
+	if m.role == "acc" && m.prop == "C06" {
+		if in != nil && in.Type == "A" && before == 'W' && in.Acceptable {
+			m.ids = [2]string{w.self, w.peer}
+			if in.OtherIDs {
+				m.ids = [2]string{"DESK", "OTHER"}
+			}
+		}
+		if m.ids[0] != "" && (before == 'L' || before == 'O' || m.state == 'L') && !(in != nil && in.Type == "2") { // (retransmissions keep the identifiers they were first sent with)
+			for _, o := range outs {
+				snd, _ := get(o.Msg, "49")
+				tgt, _ := get(o.Msg, "56")
+				if snd != m.ids[0] || tgt != m.ids[1] {
+					return "outbound-carries-other-identifiers:" + evClass(pe), fmt.Sprintf("49=%s 56=%s on %s; the accepted Logon established %s -> %s | outs=[%s]", snd, tgt, typeName(mtype(o.Msg)), m.ids[0], m.ids[1], outsStr(outs))
+				}
+			}
+		}
 	}
 	if m.prop == "C07" && !m.everLogged {
 		// judged first: what was transmitted counts even if the session has meanwhile shut itself down
@@ -359,6 +378,17 @@ func protoAlphabet(role string, which string) []*protoEvent {
 		add(inEv("Logon(ok,hb=5)", "A", true, true, "", true, lg("98=0", "108=5")))
 		add(inEv("Logon(ok,seq-ahead,hb=30)", "A", true, true, "", true, func(w *world) []byte { w.nextIn += 3; return w.msg("A", "98=0", "108=30") }))
 	}
+	if which == "C06" && acc {
+		// another counterparty pair: accepted like any Logon while waiting for one (its identifiers are then the
+		// session's), rejected while logged on - without the session taking over anything from it
+		e := inEv("Logon(ok,other-ids,hb=30)", "A", true, true, "", true, func(w *world) []byte {
+			m := rawFrom("OTHER", "DESK", "A", w.nextIn, "98=0", "108=30")
+			w.nextIn++
+			return m
+		})
+		e.In.OtherIDs = true
+		add(e)
+	}
 	add(inEv("Logon(hb=4<min)", "A", true, !acc, "108", true, lg("98=0", "108=4")))
 	add(inEv("Logon(hb=31>max)", "A", true, !acc, "108", true, lg("98=0", "108=31")))
 	add(inEv("Logon(method=1-disallowed)", "A", true, !acc, "98", true, lg("98=1", "108=30")))
@@ -407,6 +437,13 @@ func protoAlphabet(role string, which string) []*protoEvent {
 		add(inEv("ResendRequest(text-34=-before-34,begin-not-numeric)", "2", false, false, "", true, func(w *world) []byte {
 			return withDecoyAfterMsgType(w.msg("2", "7=x", "16=0"), "50=see 34=999")
 		}))
+		// numbers no int can hold (19 digits above 2^63-1, 20 digits that wrap to small values): not numeric for
+		// the purpose of this protocol, wherever they stand
+		add(inEv("Heartbeat(seq=2^63)", "0", false, false, "", false, func(w *world) []byte { return withField(w.msg("0"), "34", "9223372036854775808") }))
+		add(inEv("TestRequest(seq=2^64+3)", "1", false, false, "", false, func(w *world) []byte { return withField(w.msg("1", "112=T7"), "34", "18446744073709551619") }))
+		add(inEv("ResendRequest(begin=2^64+1,end=2^64+2)", "2", false, false, "", true, func(w *world) []byte {
+			return w.msg("2", "7=18446744073709551617", "16=18446744073709551618")
+		}))
 		// the peer falls silent until the session probes it: the session's own TestRequest is outstanding
 		add(&protoEvent{Local: "silence", event: event{Name: "Silence(32 s)", Do: func(w *world) { sleepFor(32) }}})
 		add(inEv("ResendRequest(begin-empty)", "2", false, false, "", true, func(w *world) []byte { return w.msg("2", "7=", "16=0") }))
@@ -450,7 +487,18 @@ func protoCfgs(prop string, tier string) []*histCfg {
 				byName[e.Name] = e
 				alpha = append(alpha, e.event)
 			}
+			leaf := map[string]bool{}
+			if prop == "C16" {
+				// damaged messages and the forms that differ only in how the Reject must refer to them change nothing
+				// (that is the property): they are judged in the last two positions, after every state the other events build
+				for _, e := range pevs {
+					if e.In != nil && (!e.In.Valid || !e.In.SeqKnown || strings.Contains(e.Name, "5034")) {
+						leaf[e.Name] = true
+					}
+				}
+			}
 			c := &histCfg{
+				Leaf:     leaf,
 				Name:     fmt.Sprintf("%s/%s/%s", prop, role, store),
 				Alphabet: alpha,
 				Depth:    depth,
